@@ -428,6 +428,39 @@ class Explorer:
             out.append(f)
         return frozenset(out)
 
+    def transfer(self, facts: frozenset, node: Node) -> list:
+        """facts that follow a value through `x = <expr>` (isinstance / is None / truthiness of the
+        assigned expression, evaluated before the assignment) and the class fact on entering
+        `except C as e`"""
+        s = node.node
+        out = []
+        if node.kind == "except":
+            h = s
+            if h.name and h.type is not None and not isinstance(h.type, ast.Tuple):
+                out.append((f"isinstance({h.name}, {ast.unparse(h.type)})", True))
+                out.append((f"{h.name} is None", False))
+            return out
+        if node.kind != "stmt":
+            return out
+        if isinstance(s, ast.Assign) and len(s.targets) == 1 and isinstance(s.targets[0], ast.Name):
+            t, v = s.targets[0].id, s.value
+        elif isinstance(s, ast.AnnAssign) and s.value is not None and isinstance(s.target, ast.Name):
+            t, v = s.target.id, s.value
+        else:
+            return out
+        if not isinstance(v, (ast.Name, ast.Attribute)):
+            return out
+        vs = ast.unparse(subst(v, self.aliases))
+        pre = f"isinstance({vs}, "
+        for k, p in facts:
+            if k.startswith(pre):
+                out.append((f"isinstance({t}, " + k[len(pre):], p))
+            elif k == f"{vs} is None":
+                out.append((f"{t} is None", p))
+            elif k == vs:
+                out.append((t, p))
+        return out
+
     def run(self) -> Result:
         cfg = self.cfg
         states_at: dict[int, list] = {}
@@ -487,6 +520,7 @@ class Explorer:
                         g = self._gen.get(node.id)
                         if g is None:
                             g = self._gen[node.id] = gen_facts(node, self.aliases)
+                        g = list(g) + self.transfer(facts, node)
                         if g:
                             f2c = _close(set(f2) | set(g))
                             f2 = f2c if f2c is not None else f2
